@@ -507,6 +507,9 @@ def gen_rhs(rng, allowed, tvar, qcount, states=(), rational=False, pderiv=0.08):
                 qcount[0] += 1
                 return [4, q(qcount[0] - 1, a), [5, q(qcount[0], b), [0, 0, Fraction(-1)]]] if rng.random() < 0.5 else \
                     [4, q(qcount[0] - 1, a), q(qcount[0], b)]
+            if rng.random() < 0.06:
+                # physical constants far from 1 (they must survive the substitution of plain numbers for quantities)
+                return q(qcount[0], rng.choice(['1.380649e-23', '1.602176634e-19', '6.02214076e23', '-2.5e-18']))
             return q(qcount[0], rng.choice(['2', '0.5', '3', '1', '-1', '10']))
         if r < 0.93 and allow_deriv:
             return [8, [3, rng.choice(list(states))], [3, tvar], 1]
@@ -577,7 +580,7 @@ def gen_case(seed, profile='edit'):
         allowed = [i for i in range(nbase) if i < y or kinds.get(i) == 'ode' or i == tvar]
         if rng.random() < 0.25:
             qcount[0] += 1
-            rhs = q(qcount[0], rng.choice(['1', '2', '0.25']))
+            rhs = q(qcount[0], rng.choice(['1', '2', '0.25', '1.602176634e-19'] if rng.random() < 0.15 else ['1', '2', '0.25']))
         else:
             st = [i for i in kinds if kinds[i] == 'ode']
             pd = 0.08
